@@ -57,9 +57,9 @@ def gen_mods(rnd):
         k = rnd.randint(0, 4)
         if k == 0:
             op = rnd.choice(['>', '>=', '<', '<=', '=', '='])
-            mods.append(('amount', op, rnd.choice(['100', '12', '99.99', '0.5', '500', '50', '12.5'])))
+            mods.append(('amount', op, rnd.choice(['100', '12', '99.99', '0.5', '500', '50', '12.5', '12345.67', '10000.25', '250000.5', '1234567.89', '15250.45'])))
         elif k == 1:
-            mods.append(('amount', ':', rnd.choice(['10', '0.5', '12']), rnd.choice(['100', '99.99', '500'])))
+            mods.append(('amount', ':', rnd.choice(['10', '0.5', '12', '10000.25']), rnd.choice(['100', '99.99', '500', '20000.75', '1234567.89'])))
         elif k == 2:
             mods.append(('date', '=', rnd.choice(['2025-01-15', '2024-12-31', '2024-02-29'])))
         elif k == 3:
@@ -72,16 +72,16 @@ def gen_mods(rnd):
 def gen_file(rnd):
     rules = []
     for i in range(rnd.randint(1, 10)):
-        cat, sub = rnd.choice(R.CATS)
+        cat, sub = rnd.choice(R.CATS + [('Kids #1', 'Unit #4'), ('Sep\u2028Cat', 'F\x0cF')])
         r = rnd.random()
         if r < .12:
             cat, sub = '', ''                      # tag-only row
         elif r < .2:
             sub = ''
-        tags = [rnd.choice(['recurring', 'Business', 'INCOME', 'needs review', 'Q1', 'a-b']) for _ in range(rnd.choice([0, 0, 1, 2]))]
+        tags = [rnd.choice(['recurring', 'Business', 'INCOME', 'needs review', 'Q1', 'a-b', 'acct #2', 'ps\u2029tag']) for _ in range(rnd.choice([0, 0, 1, 2]))]
         if not cat and rnd.random() < .7 and not tags:
             tags = ['flag']                        # (a row with neither category nor tags is legal CSV and has no effect)
-        rules.append(R.CsvRule(gen_pattern(rnd), gen_mods(rnd), rnd.choice(['Netflix', 'Uber Eats', "Joe's Diner", 'Shop & Co', 'M%d' % i, 'A: B', 'Big [Box]']),
+        rules.append(R.CsvRule(gen_pattern(rnd), gen_mods(rnd), rnd.choice(['Netflix', 'Uber Eats', "Joe's Diner", 'Shop & Co', 'M%d' % i, 'A: B', 'Big [Box]', 'Line\u2028Sep Co', 'Form\x0cFeed', 'Unit #4', 'Nel\x85Name']),
                                cat, sub, tags))
     return rules
 
